@@ -12,6 +12,7 @@ type IOMode struct {
 	Buffers  bool  // writer: use WriteBuffers with a vector
 	StallAt  int64 // reader: stop reading at this offset (0 = never) ...
 	StallFor time.Duration
+	OnStall  func(until time.Duration) // called when the stall begins
 }
 
 func drawSize(t *Tape, stream string, kind int, mss int) int {
@@ -156,6 +157,9 @@ func (ep *Endpoint) StartReader(mode IOMode) {
 			stalled = true
 			pause = mode.StallFor
 			s.Stats.Probe("reader-stalled")
+			if mode.OnStall != nil {
+				mode.OnStall(s.Now() + pause)
+			}
 			s.L.Logf("reader %s stalls for %v at offset %d", ep.Name, pause, ep.In.Read)
 		} else if s.Tape.Chance(stream, mode.PausePM) {
 			pause = time.Duration(s.Tape.Range(stream, 1, mode.PauseUs)) * time.Microsecond
